@@ -50,6 +50,8 @@ const TYPES: &[Ty] = &[
     // zero-size types have a target-dependent alignment too
     Ty { std_name: "[u64; 0]", name: "[u64 ; 0]", size: 0, align: 4, copy: true },
     Ty { std_name: "[u16; 0]", name: "[u16 ; 0]", size: 0, align: 16, copy: true },
+    // an alignment beyond every host alignment of the standard types (host: 64 / 8)
+    Ty { std_name: "[u64; 8]", name: "[u64 ; 8]", size: 64, align: 32, copy: true },
 ];
 
 struct Synth;
@@ -117,7 +119,8 @@ macro_rules! with_type {
             8 => $f::<[u8; 3]>($($args),*),
             9 => $f::<()>($($args),*),
             10 => $f::<[u64; 0]>($($args),*),
-            _ => $f::<[u16; 0]>($($args),*),
+            11 => $f::<[u16; 0]>($($args),*),
+            _ => $f::<[u64; 8]>($($args),*),
         }
     };
 }
@@ -136,6 +139,7 @@ macro_rules! with_copy_type {
             9 => $f::<()>($($args),*),
             10 => $f::<[u64; 0]>($($args),*),
             11 => $f::<[u16; 0]>($($args),*),
+            12 => $f::<[u64; 8]>($($args),*),
             _ => unreachable!(),
         }
     };
@@ -589,7 +593,7 @@ pub fn main(args: &Args, threads: usize) -> ! {
     }
     transitions += single;
 
-    // (2) typed histories: alphabet = 12 types x {typed, dynamic, copy, override(size+align)}
+    // (2) typed histories: alphabet = 13 types x {typed, dynamic, copy, override(size+align)}
     let entries = [Entry::Typed, Entry::Dynamic, Entry::Copy, Entry::Override(6), Entry::CopyForeign];
     let mut alphabet: Vec<(u8, Entry)> = vec![];
     for ty in 0..TYPES.len() {
